@@ -3,6 +3,9 @@
 -/
 import Stevia.Proofs.TreeState
 import Stevia.Proofs.ArraySetState
+import Stevia.Proofs.GenTreeQuery32
+import Stevia.Proofs.GenTreeQuery8
+import Stevia.Proofs.TreeImpEq
 
 namespace Stevia.C08
 open Stevia
@@ -48,5 +51,19 @@ theorem array_extend {κ : Type} [LinOrd κ] {key : α → κ} {P : Nat} {s : AS
     (s.extend d n).Inv key P ∧ (s.extend d n).view = s.view ∧ (s.extend d n).slots = s.slots + n :=
   let r := ASet.extend_spec h d n
   ⟨r.1, r.2.1, r.2.2.1⟩
+
+/-! ### Tie through the translator: `from_bytes_mut` of the source adopts the grown capacity as the model does -/
+
+/-- `avl_tree.rs`: the translated `from_bytes_mut` on the layout of a well-formed state is the layout of the model's
+    `openMut` (capacity raised to the number of records, nothing else touched). -/
+theorem translated_open_u32 (kd : α) (vd : β) (s : Tree α β) (h : s.Inv cfgU32) :
+    Gen32.from_bytes_mut (Imp.dflt kd vd) (s.image cfgU32 kd vd) = (s.openMut cfgU32).image cfgU32 kd vd := by
+  rw [Gen32.from_bytes_mut_eq]; exact Imp.openMut_eq cfgU32 kd vd s h
+
+/-- `u8_avl_tree.rs`: the translated `from_bytes_mut` on the layout of a well-formed state is the layout of the model's
+    `openMut` (capacity raised to the number of records, nothing else touched). -/
+theorem translated_open_u8 (kd : α) (vd : β) (s : Tree α β) (h : s.Inv cfgU8) :
+    Gen8.from_bytes_mut (Imp.dflt kd vd) (s.image cfgU8 kd vd) = (s.openMut cfgU8).image cfgU8 kd vd := by
+  rw [Gen8.from_bytes_mut_eq]; exact Imp.openMut_eq cfgU8 kd vd s h
 
 end Stevia.C08
